@@ -1,5 +1,6 @@
 //! C18: counts heap allocations around every reader call.
-//! Case line: "al <fa|fq> <cap> <input hex> <next|set> <warmup calls>"
+//! Case line: "al <fa|fq> <cap> <input hex> <mode> <warmup calls>" with mode next | set | x<n> (exact-count sets)
+//! | m<k> (k calls of next(), then plain sets into one reused set)
 //! Output per case: "al calls=<n> warm=<w> allocs_after_warm=<a> max_per_call=<m> grows_after_warm=<g> first_alloc_call=<i|-> records=<r>"
 use std::alloc::{GlobalAlloc, Layout, System};
 use std::cell::Cell;
@@ -57,6 +58,13 @@ fn main() {
         let cap: usize = t[2].parse().unwrap();
         let inp = unhex(t[3]);
         let mode = t[4];
+        // what the i-th call is: 0 = next(), 1 = read_record_set(), 2 = read_record_set_exact(n)
+        let exact_n: usize = if mode.starts_with('x') { mode[1..].parse().unwrap() } else { 0 };
+        let mixed_k: usize = if mode.starts_with('m') { mode[1..].parse().unwrap() } else { 0 };
+        let kind_of = |i: usize| -> u8 {
+            if mode == "next" { 0 } else if mode == "set" { 1 } else if mode.starts_with('x') { 2 }
+            else if i < mixed_k { 0 } else { 1 }
+        };
         let warm: usize = t[5].parse().unwrap();
         let grows = Rc::new(Cell::new(0usize));
         let mut deltas: Vec<usize> = Vec::with_capacity(4096);
@@ -68,7 +76,8 @@ fn main() {
             let mut set = fasta::RecordSet::default();
             loop {
                 let before = ALLOCS.load(Ordering::Relaxed);
-                let more = if mode == "next" {
+                let kind = kind_of(deltas.len());
+                let more = if kind == 0 {
                     match rd.next() {
                         Some(Ok(rec)) => {
                             use fasta::Record;
@@ -79,7 +88,8 @@ fn main() {
                         _ => false,
                     }
                 } else {
-                    match rd.read_record_set(&mut set) {
+                    let res = if kind == 2 { rd.read_record_set_exact(&mut set, Some(exact_n)) } else { rd.read_record_set(&mut set) };
+                    match res {
                         Some(Ok(())) => {
                             use fasta::Record;
                             for rec in &set {
@@ -106,7 +116,8 @@ fn main() {
             let mut set = fastq::RecordSet::default();
             loop {
                 let before = ALLOCS.load(Ordering::Relaxed);
-                let more = if mode == "next" {
+                let kind = kind_of(deltas.len());
+                let more = if kind == 0 {
                     match rd.next() {
                         Some(Ok(rec)) => {
                             use fastq::Record;
@@ -117,7 +128,8 @@ fn main() {
                         _ => false,
                     }
                 } else {
-                    match rd.read_record_set(&mut set) {
+                    let res = if kind == 2 { rd.read_record_set_exact(&mut set, Some(exact_n)) } else { rd.read_record_set(&mut set) };
+                    match res {
                         Some(Ok(())) => {
                             use fastq::Record;
                             for rec in &set {
